@@ -4,6 +4,7 @@ package main
 
 import (
 	"fmt"
+	"go/token"
 	"sort"
 	"strings"
 
@@ -178,6 +179,7 @@ func runC20(p *Prog, r *Report) {
 		guarded := true
 		foldsNames := true
 		nDel := 0
+		sweepChecked := map[*ssa.Function]bool{}
 		allCalls(strip, func(b *ssa.BasicBlock, c ssa.CallInstruction) {
 			f := c.Common().StaticCallee()
 			if f == nil || len(c.Common().Args) < 2 {
@@ -193,6 +195,10 @@ func runC20(p *Prog, r *Report) {
 			nDel++
 			if !deletesAnyCase(f, 2) {
 				foldsNames = false
+			}
+			if !(f.Name() == "Del" && recvTypeName(f) == "RequestHeader") && !sweepChecked[f] {
+				sweepChecked[f] = true
+				sweepOnEveryPath(p, r, f)
 			}
 			// the deletions must not be reachable when the trust test said "trusted": they sit after the early return
 			okg := false
@@ -242,8 +248,26 @@ func runC20(p *Prog, r *Report) {
 					}
 				}
 			})
+			// the comparators it does use fold letters only: no "x|0x20" folding, which equates every pair of bytes that
+			// differ in bit 5 (0xb7 and 0x97, '[' and '{', '@' and '`')
+			allCalls(dom, func(b *ssa.BasicBlock, c ssa.CallInstruction) {
+				f := c.Common().StaticCallee()
+				if f == nil || !inModule(f) || f.Blocks == nil {
+					return
+				}
+				for _, fb := range f.Blocks {
+					for _, in := range fb.Instrs {
+						if bo, ok := in.(*ssa.BinOp); ok && bo.Op == token.OR {
+							if k, isK := constInt(bo.Y); isK && k == 0x20 {
+								uni = append(uni, funcName(f)+" (folds bit 5 of every byte) at "+p.Pos(c.Pos()))
+							}
+						}
+					}
+				}
+			})
+			sort.Strings(uni)
 			r.Check("R2", "the host comparison of the trust predicate folds case over ASCII only", len(uni) == 0, p.Pos(dom.Pos()),
-				"uses "+strings.Join(uni, ", ")+": Unicode simple folding equates U+212A (Kelvin sign) with 'k' and U+017F with 's', so a redirect to a different host name is taken for the initial host and keeps the credentials")
+				"uses "+strings.Join(uni, ", ")+": Unicode simple folding equates U+212A (Kelvin sign) with 'k' and U+017F with 's', and folding bit 5 of every byte equates different non-ASCII bytes, so a redirect to a different host name is taken for the initial host and keeps the credentials")
 		}
 		r.Check("R2", "the strip function decides through the host-trust predicate", guarded && should != nil, p.Pos(strip.Pos()), "the deletions are not controlled by shouldStripSensitiveHeadersOnRedirect")
 		if should != nil {
@@ -429,4 +453,61 @@ func deletesAnyCase(f *ssa.Function, depth int) bool {
 		}
 	})
 	return found
+}
+
+// sweepOnEveryPath (C20.R2b): the case-insensitive sweep of the deleter the strip function uses is not optional.
+// With name normalisation disabled a header can be stored under several spellings at once; removing one of them
+// (what RequestHeader.Del does) says nothing about the others. Every return of the deleter follows either a test
+// that found normalisation enabled, or the sweep loop over the stored names.
+func sweepOnEveryPath(p *Prog, r *Report, deleter *ssa.Function) {
+	if deleter == nil || deleter.Blocks == nil {
+		return
+	}
+	var header *ssa.BasicBlock
+	allCalls(deleter, func(b *ssa.BasicBlock, c ssa.CallInstruction) {
+		if f := c.Common().StaticCallee(); f != nil && f.Name() == "caseInsensitiveCompare" {
+			header = loopHeaderOf(b)
+		}
+	})
+	if header == nil {
+		return // judged by the existence rule
+	}
+	const (
+		bNorm uint64 = 1 << iota
+		bSweep
+	)
+	n, bad := 0, 0
+	var wit []string
+	pos := deleter.Pos()
+	x := NewExplorer(p, deleter, Hooks{
+		Edge: func(x *Explorer, st *State, from, to *ssa.BasicBlock) {
+			if to == header {
+				st.Set(bSweep)
+			}
+		},
+		Branch: func(x *Explorer, st *State, cond ssa.Value, taken bool, from *ssa.BasicBlock) {
+			pol, v := stripNot(cond)
+			if _, fv := loadedField(v); fv != nil && fv.Name() == "disableNormalizing" {
+				if (taken == pol) == false { // the flag was found false: names are canonical
+					st.Set(bNorm)
+				}
+			}
+		},
+		Exit: func(x *Explorer, st *State, ret *ssa.Return, pan *ssa.Panic) {
+			if ret == nil {
+				return
+			}
+			n++
+			if !st.Has(bNorm) && !st.Has(bSweep) {
+				bad++
+				if wit == nil {
+					wit = x.Path(st)
+					pos = ret.Pos()
+				}
+			}
+		},
+	})
+	x.Run(nil)
+	r.Check("R2", funcName(deleter)+": every return follows the sweep over the stored names, or a test that found names normalised", bad == 0 && n > 0 && !x.Aborted, p.Pos(pos),
+		fmt.Sprintf("%d of %d explored returns skip the case-insensitive sweep although normalisation may be off: with 'Authorization' and 'authorization' both stored, removing the canonical one leaves the other to be sent to the foreign host", bad, n), wit...)
 }
